@@ -392,7 +392,11 @@ def step_semantics_moves(quick):
 # functions whose resulting boards are decided bit by bit by other rules of this check: the constructors (C10.2), the two update
 # helpers (C02.2 / C02.3) and the board step itself (C02.5 decides every stored bit of PieceBoard::take_action's result)
 WRITERS_OK = ('PieceBoard::initial', 'PieceBoard::new', 'PieceBoard::move_piece', 'PieceBoard::remove_trapped_pieces',
-              'PieceBoard::take_action')
+              'PieceBoard::take_action',
+              # the public step function itself: every bit of the board it stores is decided for a step (C02.5 / C10.5), a placement
+              # (C09.3: exactly the placed type, the gold board iff Gold, all_pieces) and a pass (C02.4: unchanged), so private
+              # helpers below it (e.g. a `with_piece_placed`) are part of it
+              'GameState::take_action')
 
 
 def check_writers(ctx, prog):
